@@ -30,6 +30,8 @@ var mapit = [1, 2].iter().map(|v| v); var filtit = [1, 2].iter().filter(|v| true
 var stop = StopIter.new(); var err_inst = UErr.new("ctx"); var caught = nil; try { nil + 1; } catch e { caught = e; }
 var inst = UserK.new(); inst.field = 5;
 var longstr = "0123456789"; for i in 0..5 { longstr = longstr + longstr; }
+var leadbytes = "ÀĀŀƀǀȀɀʀˀ̀̀΀πЀрҀӀԀՀր׀؀ـڀۀ܀݀ހ߀ࠀ᠀⠀㠀䠀堀栀砀蠀頀ꠀ렀저𐀀񐀀򐀀󐀀􏿿";
+var cyr = "Привет, мир";
 var deep = []; for i in 0..60 { deep = [deep]; }
 var bigvec = []; for i in 0..300 { bigvec.push(i); }
 import "hostmod" as hostmod;
@@ -37,7 +39,7 @@ import "hostmod" as hostmod;
 MODS = [("hostmod", "var v = 1;\nfn f(a) { return a; }\n")]
 
 POOL = ["nil", "true", "false", "0", "-0", "1", "-1", "0.5", "255", "256", "2147483648", "9007199254740993", "9223372036854775808",
-        "-9223372036854775808", "(1 / 0)", "(-1 / 0)", "(0 / 0)", "1" + "0" * 308, "\"\"", "\"a\"", "\"é\"", "\"€😀x\"", "longstr", "[]", "[1]",
+        "-9223372036854775808", "(1 / 0)", "(-1 / 0)", "(0 / 0)", "1" + "0" * 308, "\"\"", "\"a\"", "\"é\"", "\"€😀x\"", "longstr", "leadbytes", "cyr", "\"שלום\"", "[]", "[1]",
         "[1, [2, [3]]]", "selfvec", "()", "(1,)", "(1, (2, 3))", "selftuple", "badtuple", "badtuple2", "{}", "{1: 2}", "selfmap", "0..0", "0..3", "3..0", "-2..2",
         "0..9223372036854775807", "f0", "f1", "f2", "print", "type", "\"a\".len", "[1].push", "inst.m", "String", "Vec", "UserK", "Fiber", "Type",
         "inst", "DString.new()", "DVec.new()", "DMap.new()", "DFiber.make()", "DIter.new()", "hostmod", "fiber_new", "fiber_susp", "fiber_done",
@@ -113,6 +115,16 @@ def operator_programs(rng, quick):
             "insert(%s, 1)" % a, "insert(%s, 2)" % a, "has_key(%s)" % a, "get(%s)" % a, "remove(%s)" % a, "insert((0, %s), 3)" % a,
             "has_key((0, %s))" % a]) + " try { print(type({%s: 1, %s: 2})); } catch e { print(type(e)); } print(km.len()); }" % (a, a))
         lines.append("try { #[derive(%s)] class Sub {} print(\"declared\"); } catch e { print(type(e)); }" % a)
+        # the same object in two roles of one operation (container and index, receiver and argument, both operands):
+        # formatting, comparing or hashing the one while the other is borrowed or being changed
+        for self_role in ["%s[%s]", "%s[%s] = 1", "%s[(%s, 1)] = 1", "%s[[%s]] = 1", "%s[{1: %s}] = 1", "%s.find(%s, 0)", "%s.replace(%s, \"r\")",
+                          "%s.split(%s)", "%s.starts_with(%s)", "%s.has_key(%s)", "%s.get(%s)", "%s.remove(%s)", "%s.derives(%s)", "%s.call(%s)",
+                          "%s(%s)", "%s == %s", "%s < %s", "%s + %s", "%s..%s", "%s.iter().map(%s).collect()", "%s.iter().reduce(%s, 0)"]:
+            if "=" in self_role and " = 1" in self_role:
+                lines.append("try { %s; print(\"stored\"); } catch e { print(type(e)); print(e.context); }" % (self_role % (a, a)))
+            else:
+                lines.append("try { print(type(%s)); } catch e { print(type(e)); print(e.context); }" % (self_role % (a, a)))
+        lines.append("try { var n = 0; for x in %s { n = n + 1; if n > 60 { break; } } print(n); } catch e { print(type(e)); }" % a)
         others = pool if not quick else rng.sample(pool, 6)
         for b in others:
             op = rng.choice(BINOPS)
